@@ -143,6 +143,11 @@ class TransformationPerformer:
     if trans_info.num_ops_added == 0:
       return
     prev_transformation = transformations[prev_transformation_index]
+    # Previously added ops at or after the insertion point have moved as well.
+    self._added_op_id_map[subgraph_id] = [
+        op_id + trans_info.num_ops_added if op_id >= trans_info.op_id else op_id
+        for op_id in self._added_op_id_map[subgraph_id]
+    ]
     self._added_op_id_map[subgraph_id].append(
         trans_info.op_id + trans_info.num_ops_added - 1
     )
@@ -179,7 +184,7 @@ class TransformationPerformer:
       None, update the transformation_inst & tflite_model in place
     """
     instruction = transformation_inst.instructions[transformation_index]
-    if not instruction.producer or instruction.producer < 0:
+    if instruction.producer is None or instruction.producer < 0:
       producer = -1
     elif instruction.producer < len(
         self._original_op_id_map[transformation_inst.subgraph_id]
@@ -196,6 +201,10 @@ class TransformationPerformer:
       ]
     consumers = []
     for original_op_id in instruction.consumers:
+      if original_op_id < 0:
+        # Graph output pseudo consumer, there is no op to translate.
+        consumers.append(-1)
+        continue
       consumers.append(
           self._original_op_id_map[transformation_inst.subgraph_id][
               original_op_id
@@ -218,11 +227,19 @@ class TransformationPerformer:
         transformation_inst.subgraph_id,
         trans_info,
     )
-    self._update_op_id_map(
-        transformation_inst.subgraph_id,
-        min(instruction.consumers),
-        trans_info.num_ops_added,
-    )
+    if trans_info.num_ops_added:
+      # Every original op at or after the insertion point has moved.
+      op_id_map = self._original_op_id_map[transformation_inst.subgraph_id]
+      first_moved_op_id = len(op_id_map)
+      for original_op_id, current_op_id in enumerate(op_id_map):
+        if current_op_id >= trans_info.op_id:
+          first_moved_op_id = original_op_id
+          break
+      self._update_op_id_map(
+          transformation_inst.subgraph_id,
+          first_moved_op_id,
+          trans_info.num_ops_added,
+      )
 
   def _apply_transformations(
       self,
